@@ -64,11 +64,9 @@ Example C14_nonvacuous :
 Proof. exact nonvacuous. Qed.
 
 (* ==== the call-site protocols (Model/CellsUse.v) ============================
-   Good size D u  =  object allocation is sane, and UNLESS the ghost flag
-   stale u is set: the cell list is truthful about exactly the atoms of the
-   structure (Inv, registered <-> present) and it was so at every
-   get_near_cells call logged so far.  stale is set only by
-   get_positions_with_two_bonds / get_position_with_three_bonds (C14-F6). *)
+   Good size D u  =  object allocation is sane, the cell list is truthful
+   about exactly the atoms of the structure (Inv, registered <-> present), and
+   it was so at every get_near_cells call logged so far. *)
 
 (* the source has exactly the call-site skeletons the model was written from *)
 Theorem C14_sites_table_matches_model : table_eqb sites modelled_sites = true.
@@ -77,35 +75,31 @@ Proof. exact sites_table_matches_model. Qed.
 (* Cells.assign_cells on a new Cells object, atoms = the atoms of the structure *)
 Theorem C14_protocol_assign_cells_disciplined : forall size D, 0 < size -> 0 < D ->
   forall atoms u0, NoDup atoms -> (forall a, In a atoms <-> present u0 a = true) -> alloc u0 ->
-  Good size D (assign_cells size D atoms u0) /\ stale (assign_cells size D atoms u0) = false.
+  Good size D (assign_cells size D atoms u0).
 Proof. exact T_protocol_assign_cells_disciplined. Qed.
 
 (* Debump.set_dihedral_angle, for all atom lists and all new coordinates *)
 Theorem C14_protocol_set_dihedral_angle_disciplined : forall size D atoms f u,
-  Good size D u ->
-  Good size D (set_dihedral_angle size D atoms f u) /\ stale (set_dihedral_angle size D atoms f u) = stale u.
-Proof. exact T_protocol_set_dihedral_angle_disciplined. Qed.
+  Good size D u -> Good size D (set_dihedral_angle size D atoms f u).
+Proof. exact P_set_dihedral. Qed.
 
 (* the whole debump window: any interleaving of set_dihedral_angle calls and
    find_nearby_atoms queries; every query is logged in a truthful state *)
 Theorem C14_protocol_debump_window_disciplined : forall size D sc u,
-  Good size D u ->
-  Good size D (debump_run size D sc u) /\ stale (debump_run size D sc u) = stale u.
-Proof. exact T_protocol_debump_window_disciplined. Qed.
+  Good size D u -> Good size D (debump_run size D sc u).
+Proof. exact P_debump_run. Qed.
 
 (* remove_cell(a); remove_atom(a) for any list of atoms: Flip.fix_flip,
-   Flip.finalize, Alcoholic.__init__, the undo of try_both, *.complete,
+   Flip.finalize, Alcoholic.__init__, the undo of try_both, the complete() tails,
    Carboxylic.fix / try_acceptor / rename *)
 Theorem C14_protocol_remove_delete_disciplined : forall size D dels u,
-  Good size D u ->
-  Good size D (remove_delete_all dels u) /\ stale (remove_delete_all dels u) = stale u.
-Proof. exact T_protocol_remove_delete_disciplined. Qed.
+  Good size D u -> Good size D (remove_delete_all dels u).
+Proof. exact P_remove_delete_all. Qed.
 
 (* Flip.__init__ *)
 Theorem C14_protocol_flip_init_disciplined : forall size D atoms f news u,
-  Good size D u ->
-  Good size D (flip_init size D atoms f news u) /\ stale (flip_init size D atoms f news u) = stale u.
-Proof. exact T_protocol_flip_init_disciplined. Qed.
+  Good size D u -> Good size D (flip_init size D atoms f news u).
+Proof. exact P_flip_init. Qed.
 
 (* Carboxylic.__init__ / try_acceptor / fix / finalize (with its queries) *)
 Theorem C14_protocol_carboxylic_disciplined : forall size D u, Good size D u ->
@@ -115,9 +109,26 @@ Theorem C14_protocol_carboxylic_disciplined : forall size D u, Good size D u ->
   (forall fixed qs dels ren, Good size D (carboxylic_finalize fixed qs dels ren u)).
 Proof. exact T_protocol_carboxylic_disciplined. Qed.
 
+(* get_positions_with_two_bonds / get_position_with_three_bonds (as repaired by
+   e1a3cf3, C14-F6): registered atoms are rotated twice and then written back to
+   their saved coordinates; for ALL rotation results the cell list is truthful
+   again afterwards (no query is issued in between) *)
+Theorem C14_protocol_get_positions_disciplined : forall size D atom g u,
+  Good size D u ->
+  Good size D (get_positions_with_two_bonds atom g u) /\
+  Good size D (get_position_with_three_bonds atom g u).
+Proof. exact T_protocol_get_positions_disciplined. Qed.
+
+(* regression of C14-F6: H2 exactly on a cell boundary is found after the call *)
+Example C14_get_positions_regression :
+  let u' := get_positions_with_two_bonds 0%nat f6_g f6_u in
+  posn (cs u') 2%nat = (50, 0, 0) /\ cell_of (cs u') 2%nat = Some (5, 0, 0) /\
+  filter (within 50 (cs u') 3%nat) (get_near_cells 5 (cs u') 3%nat) = [0%nat; 1%nat; 2%nat].
+Proof. exact get_positions_regression. Qed.
+
 (* Alcoholic/Water.try_donor and try_acceptor with everything they call in
-   optimize.py (the make_ , try_single_alcoholic_ and try_positions_ families), for all oracle
-   answers and every bond count *)
+   optimize.py (the make_ , try_single_alcoholic_ , try_positions_ and
+   get_position families), for all oracle answers and every bond count *)
 Theorem C14_protocol_try_donor_acceptor_disciplined : forall size D o a u, Good size D u ->
   Good size D (alcoholic_try_donor size D o a u) /\ Good size D (alcoholic_try_acceptor size D o a u) /\
   Good size D (water_try_donor size D o a u) /\ Good size D (water_try_acceptor size D o a u).
@@ -131,39 +142,18 @@ Proof. exact P_try_both_undo. Qed.
 
 (* Alcoholic.finalize and Water.finalize (any recursion depth), with the
    get_near_cells / get_closest_atom calls inside their loops *)
-Theorem C14_protocol_finalize_disciplined : forall size D, 0 < size -> 0 < D -> forall u, Good size D u ->
+Theorem C14_protocol_finalize_disciplined : forall size D u, Good size D u ->
   (forall o atom, Good size D (alcoholic_finalize size D o atom u)) /\
   (forall fuel o atom, Good size D (water_finalize size D fuel o atom u)).
 Proof. exact T_protocol_finalize_disciplined. Qed.
 
-(* FULL statement that fails: get_positions_with_two_bonds keeps the cell list
-   truthful for all rotation results.  Refuted (C14-F6): the rotated atoms are
-   registered and are not re-bucketed; when the third rotation lands one of them
-   on the other side of a cell boundary a later query misses it. *)
-Theorem C14_protocol_get_positions_refuted :
-  Good 5 10 f6_u /\
-  let u' := get_positions_with_two_bonds 5 10 0%nat f6_g f6_u in
-  stale u' = true /\ present u' 3%nat = true /\ present u' 2%nat = true /\
-  within 50 (cs u') 3%nat 2%nat = true /\ ~ In 2%nat (get_near_cells 5 (cs u') 3%nat).
-Proof. exact get_positions_refuted. Qed.
-
-(* what holds: truthful again whenever every rotated registered atom ends in
-   the cell it is listed in (that is exactly "stale stays false") *)
-Theorem C14_protocol_get_positions_partial : forall size D atom g u,
-  Good size D u ->
-  Good size D (get_positions_with_two_bonds size D atom g u) /\
-  Good size D (get_position_with_three_bonds size D atom g u).
-Proof. exact T_protocol_get_positions_partial. Qed.
-
-(* ANY sequence of the modelled protocols after assign_cells: unless stale was
-   set, every query issued inside or between them equals brute force over the
-   atoms that were in the structure at that moment, and so does any query on the
-   final state *)
+(* ANY sequence of the modelled protocols after assign_cells: every query issued
+   inside or between them equals brute force over the atoms that were in the
+   structure at that moment, and so does any query on the final state *)
 Theorem C14_histories_of_protocols : forall size D, 0 < size -> 0 < D ->
   forall atoms u0 cl,
   NoDup atoms -> (forall a, In a atoms <-> present u0 a = true) -> alloc u0 ->
   let u := run_calls size D cl (assign_cells size D atoms u0) in
-  stale u = false ->
   (forall q, In q (qlog u) -> q_present q (q_atom q) = true ->
      forall b c0, 0 <= c0 <= D * size ->
      (In b (filter (within c0 (q_cs q) (q_atom q)) (get_near_cells size (q_cs q) (q_atom q))) <->
@@ -175,12 +165,14 @@ Proof. exact histories_of_protocols. Qed.
 
 Example C14_history_nonvacuous :
   let o := mkFin false (42, 5, 0) [0%nat] (fun i m => (42, 5, Z.of_nat i)) (Some (43, 4, 1)) (0, 0, 0) false true false in
+  let t := mkTry true (41, -3, 2) [0%nat] (fun i m => (60, 60, Z.of_nat i)) true true (39, 2, -5) (Some (41, -3, 2)) in
   let u0 := mkU (mk (fun _ => []) (fun _ => None)
                     (fun a => match a with 0%nat => (40, 0, 0) | 1%nat => (38, 8, 0) | _ => (-1, 0, 0) end))
-                (fun a => Nat.ltb a 3) (fun a => match a with 0%nat => [1%nat] | 1%nat => [0%nat] | _ => [] end) 3 false [] in
-  let u := run_calls 5 10 [CSetDihedral [1%nat] (fun _ => (38, 9, 1)); CAlcFinalize o 0%nat; CDetect [0%nat]] (assign_cells 5 10 [0%nat; 1%nat; 2%nat] u0) in
-  stale u = false /\ List.length (qlog u) = 19%nat /\ present u 3%nat = true /\
-  filter (within 50 (cs u) 0%nat) (get_near_cells 5 (cs u) 0%nat) = [2%nat; 1%nat; 3%nat].
+                (fun a => Nat.ltb a 3) (fun a => match a with 0%nat => [1%nat] | 1%nat => [0%nat] | _ => [] end) 3 [] in
+  let u := run_calls 5 10 [CSetDihedral [1%nat] (fun _ => (38, 9, 1)); CAlcFinalize o 0%nat; CAlcTryAcceptor t 0%nat; CDetect [0%nat]] (assign_cells 5 10 [0%nat; 1%nat; 2%nat] u0) in
+  List.length (qlog u) = 19%nat /\ present u 3%nat = true /\ present u 4%nat = true /\
+  posn (cs u) 3%nat = (43, 4, 1) /\
+  filter (within 50 (cs u) 0%nat) (get_near_cells 5 (cs u) 0%nat) = [2%nat; 4%nat; 1%nat; 3%nat].
 Proof. exact history_nonvacuous. Qed.
 
 Print Assumptions C14_key_code_idx.
@@ -201,7 +193,7 @@ Print Assumptions C14_protocol_carboxylic_disciplined.
 Print Assumptions C14_protocol_try_donor_acceptor_disciplined.
 Print Assumptions C14_protocol_try_both_disciplined.
 Print Assumptions C14_protocol_finalize_disciplined.
-Print Assumptions C14_protocol_get_positions_refuted.
-Print Assumptions C14_protocol_get_positions_partial.
+Print Assumptions C14_protocol_get_positions_disciplined.
+Print Assumptions C14_get_positions_regression.
 Print Assumptions C14_histories_of_protocols.
 Print Assumptions C14_history_nonvacuous.
